@@ -71,6 +71,10 @@ def main(argv=None) -> int:
         mod = importlib.import_module(f"rexsa.props.{pid.lower()}")
         try:
             mod.run(chk, model)
+            from .props.mirrors import MIRRORS
+            from .report import Remap
+            for home, mapping, skip in MIRRORS.get(pid, ()):
+                importlib.import_module(f"rexsa.props.{home}").run(Remap(chk, mapping, skip), model)
         except (AnchorMissing, AnalysisError) as e:
             chk.unknown("ANCHOR", type(e).__name__, str(e))
         if args.tier == "thorough" and hasattr(mod, "run_thorough"):
